@@ -803,6 +803,8 @@ class Interp:
         self.switch_hook = None    # (fr, term, dv, pth) -> target bb | None : assumed branch outcomes
         self.opaque_sites = []
         self.call_sites = 0
+        self.fork_inlined = False  # paths of an inlined callee become paths of the caller (else: havoc)
+        self._fork_ctx = None
         self.body_override = {}    # path -> Body (e.g. with private helpers inlined, see inline.py)
         self.cast_hook = None      # (rvalue, operand value) -> abstract value | None
         self.propagate_hooks = False   # binop_hook also applies inside inlined callees / closures
@@ -892,7 +894,10 @@ class Interp:
             elif k == 'drop':
                 bb = t['target']
             elif k == 'call':
+                self._fork_ctx = (work, results)
                 nxt = self._call(fr, t, pth)
+                if nxt == 'diverged':
+                    return
                 if t['target'] is None:
                     pth.events.append(('diverge', t['span']))
                     results.append((pth, ('diverges', t['span']), {}))
@@ -1130,6 +1135,7 @@ class Interp:
     # ------------------------------------------------------------ calls
     def _call(self, fr, t, pth):
         self.call_sites += 1
+        self._cur_frame = fr
         c = callee(t)
         dest = t['dest']
         args = t['args']
@@ -1143,8 +1149,9 @@ class Interp:
         where = t['span']
 
         if self.extra_transfer is not None:
-            if self.extra_transfer(self, fr, t, c, pth):
-                return
+            rv_ = self.extra_transfer(self, fr, t, c, pth)
+            if rv_:
+                return rv_ if rv_ == 'diverged' else None
 
         import stdmodel
         if stdmodel.std_transfer(self, fr, t, c, pth):
@@ -1348,8 +1355,7 @@ class Interp:
 
         # ---- local callee: interpret with a summary frame
         if c.get('res_local') and self.inline(res) and self.facts.body(res) is not None:
-            self._inline_call(fr, t, res, pth)
-            return
+            return self._inline_call(fr, t, res, pth)
         self._havoc(fr, t, 'callee %s not in the fragment' % res)
 
     def _closure_value(self, fr, op):
@@ -1370,6 +1376,7 @@ class Interp:
         sub.interned = self.interned
         sub.cast_hook = self.cast_hook
         sub.body_override = self.body_override
+        sub.fork_inlined = self.fork_inlined
         if self.propagate_hooks:
             sub.binop_hook = self.binop_hook
             sub.propagate_hooks = True
@@ -1403,6 +1410,27 @@ class Interp:
                 caps.append(v)
         caps = Agg(caps, captures.kind)
         first = ('byref', caps) if cbody.local_ty(1).startswith('&') else caps
+
+        def reroot(v, tag):
+            # references into the caller's frame among the arguments (iterator items of iter_mut etc.)
+            if isinstance(v, Ref):
+                r = v
+                val = fr._project(fr.store.get(r.root, TOP), r.proj)
+                for _ in range(8):
+                    if not isinstance(val, Ref):
+                        break
+                    r = val
+                    val = fr._project(fr.store.get(r.root, TOP), r.proj)
+                key = ('up', tag, len(fr.store), len(extra))
+                extra[key] = TOP if isinstance(val, Ref) else val
+                back.append((key, r))
+                return Ref(key, [])
+            if isinstance(v, Agg):
+                return Agg([reroot(x, tag) for x in v.items], v.kind)
+            if isinstance(v, tuple) and len(v) == 2 and v[0] == 'byref':
+                return ('byref', reroot(v[1], tag))
+            return v
+        args = [reroot(a, 'arg%d' % i) for i, a in enumerate(args)]
         sub = self._sub()
         results = sub.run(path, [first] + list(args), extra=extra)
         self.steps = sub.steps
@@ -1455,10 +1483,11 @@ class Interp:
                 item = val.payload
                 if itv.kind == 'map-identity':
                     return Opt('some', item), AdaptIt(itv.kind, inner, itv.closure, itv.captures)
+                cf = getattr(self, '_cur_frame', None)
                 if itv.kind == 'map':
-                    out = self._call_closure(itv.closure, itv.captures, item, where)
+                    out = self._call_closure_rw(cf, itv.closure, itv.captures, [item], where) if cf is not None else self._call_closure(itv.closure, itv.captures, item, where)
                     return Opt('some', out), AdaptIt(itv.kind, inner, itv.closure, itv.captures)
-                keep = self._call_closure(itv.closure, itv.captures, ('byref', item), where)
+                keep = self._call_closure_rw(cf, itv.closure, itv.captures, [('byref', item)], where) if cf is not None else self._call_closure(itv.closure, itv.captures, ('byref', item), where)
                 if not isinstance(keep, Int):
                     raise NotDerivable('iterator predicate not decided on a modelled item', where)
                 if itv.kind == 'filter':
@@ -1519,19 +1548,49 @@ class Interp:
         self.fresh = sub.fresh
         self.call_sites += sub.call_sites
         self.opaque_sites += sub.opaque_sites
+        diverging = [r for r in results if isinstance(r[1], tuple) and r[1] and r[1][0] == 'diverges']
         results = [r for r in results if not (isinstance(r[1], tuple) and r[1] and r[1][0] == 'diverges')]
+
+        def apply(frame, r):
+            p2, ret, outs = r
+            for i, a in enumerate(t['args']):
+                ty = cbody.local_ty(i + 1)
+                if ty.startswith('&mut') and (i + 1) in outs:
+                    frame.store_through(a, outs[i + 1])
+            frame.storev(t['dest'], ret)
+
+        if self.fork_inlined and self._fork_ctx is not None and (len(results) > 1 or diverging):
+            # the callee's paths become paths of the caller (labels and events are carried over)
+            work, caller_results = self._fork_ctx
+            base_labels, base_events = list(pth.labels), list(pth.events)
+            for r in diverging:
+                np_ = Path()
+                np_.labels = base_labels + list(r[0].labels)
+                np_.events = base_events + list(r[0].events)
+                caller_results.append((np_, r[1], {}))
+            if not results:
+                return 'diverged'
+            for r in results[1:]:
+                if t['target'] is None:
+                    continue
+                nf = self._clone_frame(fr)
+                apply(nf, r)
+                np_ = Path()
+                np_.labels = base_labels + list(r[0].labels)
+                np_.events = base_events + list(r[0].events)
+                work.append((nf, t['target'], np_))
+            r = results[0]
+            pth.labels = base_labels + list(r[0].labels)
+            pth.events.extend(r[0].events)
+            apply(fr, r)
+            return
         if len(results) != 1:
             # a callee with data-dependent paths: result not expressible as one form
             self._havoc(fr, t, 'callee %s has %d paths' % (res, len(results)))
             pth.events.append(('multi-path-callee', res, len(results)))
             return
-        p2, ret, outs = results[0]
-        pth.events.extend(p2.events)
-        for i, a in enumerate(t['args']):
-            ty = cbody.local_ty(i + 1)
-            if ty.startswith('&mut') and (i + 1) in outs:
-                fr.store_through(a, outs[i + 1])
-        fr.storev(t['dest'], ret)
+        pth.events.extend(results[0][0].events)
+        apply(fr, results[0])
 
     def _group_transfer(self, fr, t, c, pth):
         name = c['name']
